@@ -198,8 +198,10 @@ Definition route_table : list row := [
      rt_steps := [SAuth MAny; SMeth [POST]; SCheck; SEff ESigned] |};
   {| rt_key := "runtimeState.oktaPushStartHandler"; rt_gate := GMask MAny XNone;
      rt_steps := [SMeth gp; SAuth MAny; SCheck; SEff EStart] |};
+  (* the poll handler makes the same ValidateUserPush call as the start handler: it sends a push
+     when none is pending *)
   {| rt_key := "runtimeState.oktaPollCheckHandler"; rt_gate := GMask MAny XNone;
-     rt_steps := [SMeth gp; SAuth MAny; SCheck; SEff ESigned] |};
+     rt_steps := [SMeth gp; SAuth MAny; SCheck; SEff EStart; SEff ESigned] |};
   {| rt_key := "runtimeState.requestAwsRoleCertificateHandler"; rt_gate := GOwn;
      rt_steps := [SOwn; SEff ESigned] |};
   {| rt_key := "runtimeState.BootstrapOtpAuthHandler"; rt_gate := GMask MAny XNone;
